@@ -1,7 +1,8 @@
 (* C02  Native reader is layout-tolerant (token level) and literal spellings are equivalent. *)
 From Coq Require Import String.   (* string literals of the closing example; imported first so the list names win *)
 From Coq Require Import NArith ZArith List Bool.
-From DictIO Require Import Chars Str Value Scalar Lexer LayoutSpec LayoutProofs.
+From DictIO Require Import Chars Str Value Scalar KeyPath SDict Lexer TokParser TreeSpec NativeSpec LayoutSpec E2ESpec LayoutProofs.
+From DictIO Require Import E2EHoles E2EFullProofs AnyLayoutProofs AnyLayoutComments ParserFuelProofs.
 Import ListNotations.
 
 (* ---- tactics for the non-vacuity examples: build [Forall lexeme], [ws_run] and [rendering] derivations for concrete
@@ -104,3 +105,598 @@ Example C02_example :
   filter nonempty (tokenize (separate_delimiters (of_string " a {
  b 1 ;	c ( 1   2 ) ; } "))).
 Proof. vm_compute. reflexivity. Qed.
+
+(* ================================================================================================================== *)
+(* Arbitrary layouts, end to end: the TREE read does not depend on the layout (AnyLayoutLex.v, AnyLayoutProofs.v).      *)
+(* ================================================================================================================== *)
+
+(* Quote-free documents.  Every rendering of the document's token list - tokens separated by arbitrary runs of white
+   space characters (every character Python's str.isspace accepts: blank, tab, LF, VT, FF, CR, FS, GS, RS, US, NEL,
+   NBSP, the Unicode spaces, LS, PS; nothing had to be excluded), runs that may be empty next to a delimiter - with any
+   white space in front and behind, parses to the tree (leaves as the classifier reads their written form). *)
+Theorem C02_parse_any_layout : forall kvs txt w1 w2 dirc count,
+  wf (Dict kvs) = true -> simple_tree (Dict kvs) = true ->
+  rendering (toks_tree format_scalar format_key false (Dict kvs)) txt -> ws_run w1 -> ws_run w2 ->
+  parse_string true dirc count (w1 ++ txt ++ w2) =
+    Ok (mkParsed (mkSD (kvs_of (map_leaves norm_scalar (Dict kvs))) [] [] [] []) count).
+Proof. exact parse_any_layout. Qed.
+Print Assumptions C02_parse_any_layout.
+
+(* the same with the token list of the whole document as the token parser sees it (toks_doc: the statements and the
+   empty token that re.split leaves behind the final delimiter) *)
+Theorem C02_parse_any_layout_doc : forall kvs txt w1 w2 dirc count,
+  wf (Dict kvs) = true -> simple_tree (Dict kvs) = true ->
+  rendering (toks_doc format_scalar format_key kvs) txt -> ws_run w1 -> ws_run w2 ->
+  parse_string true dirc count (w1 ++ txt ++ w2) =
+    Ok (mkParsed (mkSD (kvs_of (map_leaves norm_scalar (Dict kvs))) [] [] [] []) count).
+Proof. exact parse_any_layout_doc. Qed.
+Print Assumptions C02_parse_any_layout_doc.
+
+Theorem C02_layout_independent_trees : forall kvs a b wa1 wa2 wb1 wb2 dirc count,
+  wf (Dict kvs) = true -> simple_tree (Dict kvs) = true ->
+  rendering (toks_tree format_scalar format_key false (Dict kvs)) a ->
+  rendering (toks_tree format_scalar format_key false (Dict kvs)) b ->
+  ws_run wa1 -> ws_run wa2 -> ws_run wb1 -> ws_run wb2 ->
+  parse_string true dirc count (wa1 ++ a ++ wa2) = parse_string true dirc count (wb1 ++ b ++ wb2).
+Proof. exact layout_independent_trees. Qed.
+Print Assumptions C02_layout_independent_trees.
+
+(* non-vacuity: a tree of depth four with a list of dicts and an int key; layout A uses tabs, CRLF and glued delimiters,
+   layout B puts one token per line *)
+Definition ex_plain : list (key * tree) :=
+  [(KS (of_string "a"),
+    Dict [(KI 1, Lst [Dict [(KS (of_string "x"), Leaf (SInt 1))]; Dict [(KS (of_string "y"), Leaf (SStr (of_string "bc")))]]);
+          (KS (of_string "s"), Leaf (SFloat (of_string "-1.5e3")))]);
+   (KS (of_string "t"), Leaf (SBool true))].
+Definition ex_plain_A : str :=
+  of_string "a{" ++ [c_tab] ++ of_string "1({x 1;}{y" ++ [c_tab; c_tab] ++ of_string "bc;});" ++ [c_cr; c_lf; c_tab] ++
+  of_string "s -1.5e3;}" ++ [c_cr; c_lf] ++ of_string "t" ++ [c_tab] ++ of_string "true;".
+Definition ex_plain_B : str :=
+  join [c_lf] (map of_string ["a"; "{"; "1"; "("; "{"; "x"; "1"; ";"; "}"; "{"; "y"; "bc"; ";"; "}"; ")"; ";"; "s"; "-1.5e3"; ";"; "}";
+                              "t"; "true"; ";"]%string).
+
+Lemma ex_plain_facts :
+  wf (Dict ex_plain) = true /\ simple_tree (Dict ex_plain) = true /\
+  rendering (toks_tree format_scalar format_key false (Dict ex_plain)) ex_plain_A /\
+  rendering (toks_tree format_scalar format_key false (Dict ex_plain)) ex_plain_B /\
+  kvs_of (map_leaves norm_scalar (Dict ex_plain)) = ex_plain.
+Proof.
+  refine (conj _ (conj _ (conj _ (conj _ _)))); try (vm_compute; reflexivity).
+  - let v := eval vm_compute in (toks_tree format_scalar format_key false (Dict ex_plain)) in
+    let t := eval vm_compute in ex_plain_A in change (rendering v t); rendering_tac.
+  - let v := eval vm_compute in (toks_tree format_scalar format_key false (Dict ex_plain)) in
+    let t := eval vm_compute in ex_plain_B in change (rendering v t); rendering_tac.
+Qed.
+
+Example C02_parse_any_layout_nonvacuous :
+  let ls := toks_tree format_scalar format_key false (Dict ex_plain) in
+  wf (Dict ex_plain) = true /\ simple_tree (Dict ex_plain) = true /\
+  rendering ls ex_plain_A /\ rendering ls ex_plain_B /\ ex_plain_A <> ex_plain_B /\
+  parse_string true [] 0%Z ([c_tab] ++ ex_plain_A ++ [c_cr; c_lf]) = Ok (mkParsed (mkSD ex_plain [] [] [] []) 0%Z) /\
+  parse_string true [] 0%Z ([] ++ ex_plain_B ++ [c_lf]) = Ok (mkParsed (mkSD ex_plain [] [] [] []) 0%Z).
+Proof.
+  intros ls. destruct ex_plain_facts as (Hw & Hs & HA & HB & Hn).
+  assert (H1 : ws_run [c_tab]) by ws_run_tac. assert (H2 : ws_run [c_cr; c_lf]) by ws_run_tac.
+  assert (H3 : ws_run []) by ws_run_tac. assert (H4 : ws_run [c_lf]) by ws_run_tac.
+  pose proof (C02_parse_any_layout ex_plain ex_plain_A _ _ [] 0%Z Hw Hs HA H1 H2) as PA.
+  pose proof (C02_parse_any_layout ex_plain ex_plain_B _ _ [] 0%Z Hw Hs HB H3 H4) as PB.
+  rewrite Hn in PA, PB.
+  refine (conj Hw (conj Hs (conj HA (conj HB (conj _ (conj PA PB)))))).
+  vm_compute. discriminate.
+Qed.
+(* ... and by computation *)
+Example C02_parse_any_layout_computed :
+  parse_string true [] 0%Z ([c_tab] ++ ex_plain_A ++ [c_cr; c_lf]) = Ok (mkParsed (mkSD ex_plain [] [] [] []) 0%Z) /\
+  parse_string true [] 0%Z (ex_plain_B ++ [c_lf]) = Ok (mkParsed (mkSD ex_plain [] [] [] []) 0%Z).
+Proof. split; vm_compute; reflexivity. Qed.
+
+(* a rendering of toks_doc: the tokens, then white space (here the final line feed), then the empty token *)
+Example C02_parse_any_layout_doc_nonvacuous :
+  rendering (toks_doc format_scalar format_key ex_plain) (ex_plain_B ++ [c_lf]) /\
+  parse_string true [] 0%Z ([c_sp] ++ (ex_plain_B ++ [c_lf]) ++ []) = Ok (mkParsed (mkSD ex_plain [] [] [] []) 0%Z).
+Proof.
+  destruct ex_plain_facts as (Hw & Hs & _ & _ & Hn).
+  assert (HD : rendering (toks_doc format_scalar format_key ex_plain) (ex_plain_B ++ [c_lf]))
+    by (let v := eval vm_compute in (toks_doc format_scalar format_key ex_plain) in
+        let t := eval vm_compute in (ex_plain_B ++ [c_lf]) in change (rendering v t); rendering_tac).
+  assert (H1 : ws_run [c_sp]) by ws_run_tac. assert (H2 : ws_run []) by ws_run_tac.
+  pose proof (C02_parse_any_layout_doc ex_plain _ _ _ [] 0%Z Hw Hs HD H1 H2) as P. rewrite Hn in P.
+  exact (conj HD P).
+Qed.
+
+Example C02_layout_independent_trees_nonvacuous :
+  rendering (toks_tree format_scalar format_key false (Dict ex_plain)) ex_plain_A /\
+  rendering (toks_tree format_scalar format_key false (Dict ex_plain)) ex_plain_B /\ ex_plain_A <> ex_plain_B /\
+  parse_string true [] 7%Z ([c_tab] ++ ex_plain_A ++ [c_cr; c_lf]) = parse_string true [] 7%Z ([] ++ ex_plain_B ++ [c_lf]).
+Proof.
+  destruct ex_plain_facts as (Hw & Hs & HA & HB & _).
+  assert (H1 : ws_run [c_tab]) by ws_run_tac. assert (H2 : ws_run [c_cr; c_lf]) by ws_run_tac.
+  assert (H3 : ws_run []) by ws_run_tac. assert (H4 : ws_run [c_lf]) by ws_run_tac.
+  refine (conj HA (conj HB (conj _ (C02_layout_independent_trees ex_plain _ _ _ _ _ _ [] 7%Z Hw Hs HA HB H1 H2 H3 H4)))).
+  vm_compute. discriminate.
+Qed.
+
+(* The full writer domain: string leaves that need quotes.  [doc_toks fs kvs] is the document's token list with the
+   quoted leaves spelled as given by fs (one entry per quoted leaf, in document order); each may be written in single
+   quotes if its content has no single quote and in double quotes if it has no double quote, chosen independently per
+   occurrence.  Whatever the spellings and the layout, the tree read is the same (leaves as the classifier reads the
+   CONTENT of the literal).  Side conditions as in C01_roundtrip: counter >= -1, at most a million literals, quoted
+   leaves at most ten keys deep. *)
+Theorem C02_parse_any_layout_quoted : forall kvs fs txt w1 w2 dirc count,
+  wf (Dict kvs) = true -> writable_tree (Dict kvs) = true ->
+  Forall2 spelling fs (qstrs (Dict kvs)) -> rendering (doc_toks fs kvs) txt -> ws_run w1 -> ws_run w2 ->
+  (-1 <= count)%Z -> (Z.of_nat (nq (Dict kvs)) <= 1000000)%Z -> quoted_within 11 (Dict kvs) = true ->
+  parse_string true dirc count (w1 ++ txt ++ w2) =
+    Ok (mkParsed (mkSD (kvs_of (map_leaves written_value (Dict kvs))) [] [] [] []) (cafter count (nq (Dict kvs)))).
+Proof. exact parse_any_layout_spelled. Qed.
+Print Assumptions C02_parse_any_layout_quoted.
+
+Theorem C02_layout_independent_quoted : forall kvs fa fb a b wa1 wa2 wb1 wb2 dirc count,
+  wf (Dict kvs) = true -> writable_tree (Dict kvs) = true ->
+  Forall2 spelling fa (qstrs (Dict kvs)) -> Forall2 spelling fb (qstrs (Dict kvs)) ->
+  rendering (doc_toks fa kvs) a -> rendering (doc_toks fb kvs) b ->
+  ws_run wa1 -> ws_run wa2 -> ws_run wb1 -> ws_run wb2 ->
+  (-1 <= count)%Z -> (Z.of_nat (nq (Dict kvs)) <= 1000000)%Z -> quoted_within 11 (Dict kvs) = true ->
+  parse_string true dirc count (wa1 ++ a ++ wa2) = parse_string true dirc count (wb1 ++ b ++ wb2).
+Proof. exact layout_independent_spelled. Qed.
+Print Assumptions C02_layout_independent_quoted.
+
+(* non-vacuity: the tree above with two string leaves that need quotes, one of either flavour in the writer's spelling
+   ('b c' and "it's"); layout B spells the first one with double quotes *)
+Definition ex_quoted : list (key * tree) :=
+  [(KS (of_string "a"),
+    Dict [(KI 1, Lst [Dict [(KS (of_string "x"), Leaf (SInt 1))]; Dict [(KS (of_string "y"), Leaf (SStr (of_string "b c")))]]);
+          (KS (of_string "s"), Leaf (SStr (of_string "it's")))]);
+   (KS (of_string "t"), Leaf (SBool true))].
+Definition ex_quoted_A : str :=
+  of_string "a{" ++ [c_tab] ++ of_string "1({x 1;}{y" ++ [c_tab; c_tab] ++ of_string "'b c';});" ++ [c_cr; c_lf; c_tab] ++
+  of_string "s ""it's"";}" ++ [c_cr; c_lf] ++ of_string "t" ++ [c_tab] ++ of_string "true;".
+Definition ex_quoted_B : str :=
+  join [c_lf] (map of_string ["a"; "{"; "1"; "("; "{"; "x"; "1"; ";"; "}"; "{"; "y"; """b c"""; ";"; "}"; ")"; ";"; "s"; """it's"""; ";"; "}";
+                              "t"; "true"; ";"]%string).
+
+Definition ex_fa : list str := [sq (of_string "b c"); dq (of_string "it's")].
+Definition ex_fb : list str := [dq (of_string "b c"); dq (of_string "it's")].
+Lemma ex_quoted_facts :
+  wf (Dict ex_quoted) = true /\ writable_tree (Dict ex_quoted) = true /\
+  qstrs (Dict ex_quoted) = [of_string "b c"; of_string "it's"] /\
+  Forall2 spelling ex_fa (qstrs (Dict ex_quoted)) /\ Forall2 spelling ex_fb (qstrs (Dict ex_quoted)) /\
+  rendering (doc_toks ex_fa ex_quoted) ex_quoted_A /\ rendering (doc_toks ex_fb ex_quoted) ex_quoted_B /\
+  quoted_within 11 (Dict ex_quoted) = true /\ (Z.of_nat (nq (Dict ex_quoted)) <= 1000000)%Z /\
+  kvs_of (map_leaves written_value (Dict ex_quoted)) = ex_quoted /\ cafter 0%Z (nq (Dict ex_quoted)) = 2%Z.
+Proof.
+  assert (Hq : qstrs (Dict ex_quoted) = [of_string "b c"; of_string "it's"]) by (vm_compute; reflexivity).
+  refine (conj _ (conj _ (conj Hq (conj _ (conj _ (conj _ (conj _ (conj _ (conj _ (conj _ _))))))))));
+    try (vm_compute; reflexivity).
+  - rewrite Hq. constructor; [left; split; reflexivity|]. constructor; [right; split; reflexivity|constructor].
+  - rewrite Hq. constructor; [right; split; reflexivity|]. constructor; [right; split; reflexivity|constructor].
+  - let v := eval vm_compute in (doc_toks ex_fa ex_quoted) in let t := eval vm_compute in ex_quoted_A in
+    change (rendering v t); rendering_tac.
+  - let v := eval vm_compute in (doc_toks ex_fb ex_quoted) in let t := eval vm_compute in ex_quoted_B in
+    change (rendering v t); rendering_tac.
+  - vm_compute. discriminate.
+Qed.
+
+Example C02_parse_any_layout_quoted_nonvacuous :
+  let fa := [sq (of_string "b c"); dq (of_string "it's")] in
+  let fb := [dq (of_string "b c"); dq (of_string "it's")] in
+  wf (Dict ex_quoted) = true /\ writable_tree (Dict ex_quoted) = true /\
+  qstrs (Dict ex_quoted) = [of_string "b c"; of_string "it's"] /\
+  map format_string (qstrs (Dict ex_quoted)) = fa /\
+  Forall2 spelling fa (qstrs (Dict ex_quoted)) /\ Forall2 spelling fb (qstrs (Dict ex_quoted)) /\
+  rendering (doc_toks fa ex_quoted) ex_quoted_A /\ rendering (doc_toks fb ex_quoted) ex_quoted_B /\
+  quoted_within 11 (Dict ex_quoted) = true /\
+  parse_string true [] 0%Z ([c_tab] ++ ex_quoted_A ++ [c_cr; c_lf]) = Ok (mkParsed (mkSD ex_quoted [] [] [] []) 2%Z) /\
+  parse_string true [] 0%Z ([] ++ ex_quoted_B ++ [c_lf]) = Ok (mkParsed (mkSD ex_quoted [] [] [] []) 2%Z).
+Proof.
+  intros fa fb. destruct ex_quoted_facts as (Hw & Hs & Hq & Fa & Fb & HA & HB & Hd & Hm & Hn & Hc).
+  assert (Hf : map format_string (qstrs (Dict ex_quoted)) = fa) by (vm_compute; reflexivity).
+  assert (H1 : ws_run [c_tab]) by ws_run_tac. assert (H2 : ws_run [c_cr; c_lf]) by ws_run_tac.
+  assert (H3 : ws_run []) by ws_run_tac. assert (H4 : ws_run [c_lf]) by ws_run_tac.
+  pose proof (C02_parse_any_layout_quoted ex_quoted fa ex_quoted_A _ _ [] 0%Z Hw Hs Fa HA H1 H2 ltac:(discriminate) Hm Hd) as PA.
+  pose proof (C02_parse_any_layout_quoted ex_quoted fb ex_quoted_B _ _ [] 0%Z Hw Hs Fb HB H3 H4 ltac:(discriminate) Hm Hd) as PB.
+  rewrite Hn, Hc in PA, PB.
+  exact (conj Hw (conj Hs (conj Hq (conj Hf (conj Fa (conj Fb (conj HA (conj HB (conj Hd (conj PA PB)))))))))).
+Qed.
+Example C02_layout_independent_quoted_nonvacuous :
+  Forall2 spelling ex_fa (qstrs (Dict ex_quoted)) /\ Forall2 spelling ex_fb (qstrs (Dict ex_quoted)) /\ ex_fa <> ex_fb /\
+  rendering (doc_toks ex_fa ex_quoted) ex_quoted_A /\ rendering (doc_toks ex_fb ex_quoted) ex_quoted_B /\
+  parse_string true [] 5%Z ([c_tab] ++ ex_quoted_A ++ [c_cr; c_lf]) = parse_string true [] 5%Z ([] ++ ex_quoted_B ++ [c_lf]).
+Proof.
+  destruct ex_quoted_facts as (Hw & Hs & Hq & Fa & Fb & HA & HB & Hd & Hm & Hn & Hc).
+  assert (H1 : ws_run [c_tab]) by ws_run_tac. assert (H2 : ws_run [c_cr; c_lf]) by ws_run_tac.
+  assert (H3 : ws_run []) by ws_run_tac. assert (H4 : ws_run [c_lf]) by ws_run_tac.
+  refine (conj Fa (conj Fb (conj _ (conj HA (conj HB
+            (C02_layout_independent_quoted ex_quoted _ _ _ _ _ _ _ _ [] 5%Z Hw Hs Fa Fb HA HB H1 H2 H3 H4 ltac:(discriminate) Hm Hd)))))).
+  vm_compute. discriminate.
+Qed.
+Example C02_parse_any_layout_quoted_computed :
+  parse_string true [] 0%Z ([c_tab] ++ ex_quoted_A ++ [c_cr; c_lf]) = Ok (mkParsed (mkSD ex_quoted [] [] [] []) 2%Z) /\
+  parse_string true [] 0%Z (ex_quoted_B ++ [c_lf]) = Ok (mkParsed (mkSD ex_quoted [] [] [] []) 2%Z) /\
+  ex_quoted_A <> ex_quoted_B.
+Proof. repeat split; vm_compute; try reflexivity. discriminate. Qed.
+
+(* ================================================================================================================== *)
+(* C02_parse_any_layout_quoted without holes in the statement: ls is the writer's token list except that a quoted     *)
+(* string may be spelled with the other kind of quotes where its content allows it ([tok_spelling], token by token).    *)
+(* ================================================================================================================== *)
+Theorem C02_parse_any_layout_tokens : forall kvs ls txt w1 w2 dirc count,
+  wf (Dict kvs) = true -> writable_tree (Dict kvs) = true ->
+  Forall2 tok_spelling (toks_tree format_scalar format_key false (Dict kvs)) ls -> rendering ls txt ->
+  ws_run w1 -> ws_run w2 ->
+  (-1 <= count)%Z -> (Z.of_nat (nq (Dict kvs)) <= 1000000)%Z -> quoted_within 11 (Dict kvs) = true ->
+  parse_string true dirc count (w1 ++ txt ++ w2) =
+    Ok (mkParsed (mkSD (kvs_of (map_leaves written_value (Dict kvs))) [] [] [] []) (cafter count (nq (Dict kvs)))).
+Proof. exact parse_any_layout_tokens. Qed.
+Print Assumptions C02_parse_any_layout_tokens.
+
+(* [doc_toks] with the writer's own spellings is the token list of the grammar *)
+Theorem C02_doc_toks_writer : forall kvs, writable_tree (Dict kvs) = true ->
+  doc_toks (map format_string (qstrs (Dict kvs))) kvs = toks_tree format_scalar format_key false (Dict kvs).
+Proof. intros kvs H. apply doc_toks_writer. rewrite <- E2EKeyTok.writable_ktree. exact H. Qed.
+Print Assumptions C02_doc_toks_writer.
+
+Example C02_doc_toks_writer_nonvacuous :
+  writable_tree (Dict ex_quoted) = true /\ map format_string (qstrs (Dict ex_quoted)) = ex_fa /\
+  doc_toks ex_fa ex_quoted = toks_tree format_scalar format_key false (Dict ex_quoted) /\
+  In (sq (of_string "b c")) (doc_toks ex_fa ex_quoted).
+Proof.
+  assert (Hs : writable_tree (Dict ex_quoted) = true) by (vm_compute; reflexivity).
+  assert (Hf : map format_string (qstrs (Dict ex_quoted)) = ex_fa) by (vm_compute; reflexivity).
+  refine (conj Hs (conj Hf (conj _ _))).
+  - rewrite <- Hf. exact (C02_doc_toks_writer ex_quoted Hs).
+  - vm_compute. tauto.
+Qed.
+
+Ltac tok_spelling_tac :=
+  repeat (constructor;
+          [ first [ left; reflexivity
+                  | lazymatch goal with
+                    | |- tok_spelling ?a _ =>
+                        let s := eval vm_compute in (remove_quotes a) in
+                        right; exists s; split;
+                        [ first [left; reflexivity | right; reflexivity]
+                        | first [left; split; reflexivity | right; split; reflexivity] ]
+                    end ] | ]);
+  constructor.
+
+(* non-vacuity: layout B of ex_quoted, whose first literal is spelled with double quotes *)
+Example C02_parse_any_layout_tokens_nonvacuous :
+  let ls := map of_string ["a"; "{"; "1"; "("; "{"; "x"; "1"; ";"; "}"; "{"; "y"; """b c"""; ";"; "}"; ")"; ";"; "s"; """it's"""; ";"; "}";
+                           "t"; "true"; ";"]%string in
+  Forall2 tok_spelling (toks_tree format_scalar format_key false (Dict ex_quoted)) ls /\
+  ls <> toks_tree format_scalar format_key false (Dict ex_quoted) /\ rendering ls ex_quoted_B /\
+  parse_string true [] 0%Z ([] ++ ex_quoted_B ++ [c_lf]) = Ok (mkParsed (mkSD ex_quoted [] [] [] []) 2%Z).
+Proof.
+  intros ls. destruct ex_quoted_facts as (Hw & Hs & _ & _ & _ & _ & _ & Hd & Hm & Hn & Hc).
+  assert (HF : Forall2 tok_spelling (toks_tree format_scalar format_key false (Dict ex_quoted)) ls)
+    by (let a := eval vm_compute in (toks_tree format_scalar format_key false (Dict ex_quoted)) in
+        let b := eval vm_compute in ls in change (Forall2 tok_spelling a b); tok_spelling_tac).
+  assert (HB : rendering ls ex_quoted_B)
+    by (let v := eval vm_compute in ls in let t := eval vm_compute in ex_quoted_B in change (rendering v t); rendering_tac).
+  assert (H3 : ws_run []) by ws_run_tac. assert (H4 : ws_run [c_lf]) by ws_run_tac.
+  pose proof (C02_parse_any_layout_tokens ex_quoted ls ex_quoted_B _ _ [] 0%Z Hw Hs HF HB H3 H4 ltac:(discriminate) Hm Hd) as PB.
+  rewrite Hn, Hc in PB.
+  refine (conj HF (conj _ (conj HB PB))). vm_compute. discriminate.
+Qed.
+
+(* ================================================================================================================== *)
+(* Comments (AnyLayoutComments.v).  Reading with comments = false: line comments at line ends and block comments       *)
+(* between the tokens do not change the tree.                                                                          *)
+(*   Tc  the text as written;  T1 = flat all_kept p0 cps  the same text without its line comments ([lcm]: a line        *)
+(*   comment - two slashes, then anything but a line break - stands in front of a line end LF or CR LF, or at the end    *)
+(*   of the text, and is not directly preceded by a slash or a colon);  T1 is cut into the plain stretch p0 and pairs    *)
+(*   (body of a block comment, plain stretch behind it);  the plain stretches together, flat none_kept p0 cps, are a    *)
+(*   layout of the document in the sense of C02_parse_any_layout_quoted.                                                 *)
+(* Side conditions (all boolean, all met by the example; the excluded layouts DO change the tree, see the lemmas          *)
+(* AnyLayoutComments.ce_block_glues etc.):  nopair // T1: no two slashes meet outside the line comments (a block comment is not         *)
+(*   directly followed by another comment, no double slash inside a block comment);  hash_safe: no line of T1 has a      *)
+(*   hash as first visible character (the include stage runs before the block comments are removed);  seg_ok: block      *)
+(*   comment bodies contain no slash (no nested opener), the text behind a block comment does not begin with a star or   *)
+(*   a slash, plain stretches contain no slash-star and do not end with a slash.  The comment tables and the counter     *)
+(*   depend on the comments, hence the existential.                                                                      *)
+Theorem C02_parse_commented : forall kvs fs txt w1 w2 Tc p0 cps dirc count,
+  wf (Dict kvs) = true -> writable_tree (Dict kvs) = true ->
+  Forall2 spelling fs (qstrs (Dict kvs)) -> rendering (doc_toks fs kvs) txt -> ws_run w1 -> ws_run w2 ->
+  (-1 <= count)%Z -> (Z.of_nat (nq (Dict kvs)) <= 1000000)%Z -> quoted_within 11 (Dict kvs) = true ->
+  lcm true Tc (flat all_kept p0 cps) ->
+  nopair c_slash c_slash (flat all_kept p0 cps) = true -> hash_safe false (flat all_kept p0 cps) = true ->
+  plain_in p0 = true -> forallb seg_ok cps = true ->
+  flat none_kept p0 cps = w1 ++ txt ++ w2 ->
+  exists lc bc count',
+    parse_string false dirc count Tc =
+      Ok (mkParsed (mkSD (kvs_of (map_leaves written_value (Dict kvs))) lc bc [] []) count').
+Proof. exact parse_commented. Qed.
+Print Assumptions C02_parse_commented.
+
+(* derivations of [lcm] for concrete texts: two slashes in the written text start a line comment *)
+Ltac lcm_tac :=
+  lazymatch goal with
+  | |- lcm _ [] [] => apply l_nil
+  | |- lcm _ (47 :: 47 :: ?t) ?T1 =>
+      let rest := eval vm_compute in (fst (span (fun c => negb (is_linebreak c)) t)) in
+      let aft := eval vm_compute in (snd (span (fun c => negb (is_linebreak c)) t)) in
+      lazymatch aft with
+      | [] => change (lcm true (lcomment rest) []); apply l_last; vm_compute; reflexivity
+      | 10 :: ?Tc' =>
+          lazymatch T1 with
+          | 10 :: ?T1' => change (lcm true (lcomment rest ++ [c_lf] ++ Tc') (c_lf :: T1'));
+                          apply l_line; [vm_compute; reflexivity|left; reflexivity|lcm_tac]
+          end
+      | 13 :: 10 :: ?Tc' =>
+          lazymatch T1 with
+          | 10 :: ?T1' => change (lcm true (lcomment rest ++ [c_cr; c_lf] ++ Tc') (c_lf :: T1'));
+                          apply l_line; [vm_compute; reflexivity|right; reflexivity|lcm_tac]
+          end
+      end
+  | |- lcm _ (?c :: ?t) (?c :: ?T1) => apply l_char; lcm_tac
+  end.
+
+(* non-vacuity: the document ex_quoted with a three-line header comment full of stars, a line comment before a CR LF
+   and one before a LF line end, a block comment between two list items, a two-line block comment in front of a key and
+   a line comment at the end of the text *)
+Definition ex_cm_hdr : str :=
+  of_string "---------------------------------*\" ++ [c_lf] ++ of_string "| header * with stars               |" ++ [c_lf] ++
+  of_string "\*---------------------------------".
+Definition ex_cm_p0 : str := [].
+Definition ex_cm_cps : list (str * str) :=
+  [(ex_cm_hdr, [c_lf] ++ of_string "a " ++ [c_lf] ++ of_string "{" ++ [c_tab] ++ of_string "1 ( {x 1;} ");
+   (of_string " second ", of_string " {y 'b c';} ) ; " ++ [c_lf] ++ of_string "s ""it's""; }" ++ [c_cr; c_lf]);
+   (of_string " multi" ++ [c_lf] ++ of_string "   line ", of_string " t" ++ [c_tab] ++ of_string "true; ")].
+Definition ex_cm_Tc : str :=
+  bcomment ex_cm_hdr ++ [c_lf] ++ of_string "a // first key" ++ [c_cr; c_lf] ++ of_string "{" ++ [c_tab] ++
+  of_string "1 ( {x 1;} /* second */ {y 'b c';} ) ; // list" ++ [c_lf] ++
+  of_string "s ""it's""; }" ++ [c_cr; c_lf] ++ of_string "/* multi" ++ [c_lf] ++ of_string "   line */ t" ++ [c_tab] ++
+  of_string "true; // done".
+Definition ex_cm_txt : str :=
+  of_string "a " ++ [c_lf] ++ of_string "{" ++ [c_tab] ++ of_string "1 ( {x 1;}  {y 'b c';} ) ; " ++ [c_lf] ++
+  of_string "s ""it's""; }" ++ [c_cr; c_lf] ++ of_string " t" ++ [c_tab] ++ of_string "true;".
+
+Example C02_parse_commented_nonvacuous :
+  let fa := [sq (of_string "b c"); dq (of_string "it's")] in
+  let T1 := flat all_kept ex_cm_p0 ex_cm_cps in
+  Forall2 spelling fa (qstrs (Dict ex_quoted)) /\ rendering (doc_toks fa ex_quoted) ex_cm_txt /\
+  lcm true ex_cm_Tc T1 /\ nopair c_slash c_slash T1 = true /\ hash_safe false T1 = true /\
+  plain_in ex_cm_p0 = true /\ forallb seg_ok ex_cm_cps = true /\
+  flat none_kept ex_cm_p0 ex_cm_cps = [c_lf] ++ ex_cm_txt ++ [c_sp] /\
+  exists lc bc count', parse_string false [] 0%Z ex_cm_Tc = Ok (mkParsed (mkSD ex_quoted lc bc [] []) count').
+Proof.
+  intros fa T1. destruct ex_quoted_facts as (Hw & Hs & Hq & Fa & _ & _ & _ & Hd & Hm & Hn & _).
+  assert (HR : rendering (doc_toks fa ex_quoted) ex_cm_txt)
+    by (let v := eval vm_compute in (doc_toks fa ex_quoted) in let t := eval vm_compute in ex_cm_txt in
+        change (rendering v t); rendering_tac).
+  assert (HL : lcm true ex_cm_Tc T1)
+    by (let a := eval vm_compute in ex_cm_Tc in let b := eval vm_compute in T1 in change (lcm true a b); lcm_tac).
+  assert (Hnp : nopair c_slash c_slash T1 = true) by (vm_compute; reflexivity).
+  assert (Hhs : hash_safe false T1 = true) by (vm_compute; reflexivity).
+  assert (Hp0 : plain_in ex_cm_p0 = true) by (vm_compute; reflexivity).
+  assert (Hcps : forallb seg_ok ex_cm_cps = true) by (vm_compute; reflexivity).
+  assert (HT0 : flat none_kept ex_cm_p0 ex_cm_cps = [c_lf] ++ ex_cm_txt ++ [c_sp]) by (vm_compute; reflexivity).
+  assert (H1 : ws_run [c_lf]) by ws_run_tac. assert (H2 : ws_run [c_sp]) by ws_run_tac.
+  pose proof (C02_parse_commented ex_quoted fa ex_cm_txt _ _ ex_cm_Tc ex_cm_p0 ex_cm_cps [] 0%Z Hw Hs Fa HR H1 H2
+                ltac:(discriminate) Hm Hd HL Hnp Hhs Hp0 Hcps HT0) as P.
+  rewrite Hn in P.
+  exact (conj Fa (conj HR (conj HL (conj Hnp (conj Hhs (conj Hp0 (conj Hcps (conj HT0 P)))))))).
+Qed.
+(* ... and by computation: the tree, three line comments, three block comments, five numbers handed out *)
+Example C02_parse_commented_computed :
+  match parse_string false [] 0%Z ex_cm_Tc with
+  | Ok p => sd_data (pr_sd p) = ex_quoted /\ length (sd_lc (pr_sd p)) = 3%nat /\ length (sd_bc (pr_sd p)) = 3%nat /\ pr_count p = 5%Z
+  | Raise _ => False
+  end.
+Proof. vm_compute. repeat split; reflexivity. Qed.
+
+(* the layouts of comments that had to be excluded change the tree read (machine checked in AnyLayoutComments.v) *)
+Theorem C02_comment_counterexamples :
+  tree_read (of_string "a /* c */ 1; // d
+b 2;") = Some [kv_a1; kv_b2] /\
+  tree_read (of_string "a/* c */1; b 2;") = Some [kv_b2] /\
+  tree_read (of_string "a// c" ++ [c_cr] ++ of_string "1; b 2;") = Some [kv_b2] /\
+  tree_read (of_string "a /* c *///d
+1; b 2;") = Some [kv_b2] /\
+  tree_read (of_string "a /* c // d */ 1; b 2;") = Some [] /\
+  tree_read (of_string "a /*y*/ 1; b /*x/*y*/ 2;") = Some [kv_a1] /\
+  tree_read (of_string "/*k 'p*/ /*x*/*k 'p*/q';") = Some [].
+Proof.
+  exact (conj ce_reference (conj ce_block_glues (conj ce_cr_line_end (conj ce_block_then_line
+          (conj ce_slashes_in_block (conj ce_nested_opener (proj2 ce_star_after_block))))))).
+Qed.
+Print Assumptions C02_comment_counterexamples.
+
+(* ================================================================================================================== *)
+(* Termination of the reader on EVERY input: fuel adequacy of the token parser, the lexer's scanners, the clean-up       *)
+(* (ParserFuelProofs.v)                                                                                               *)
+(* ================================================================================================================== *)
+
+(* ---- the token parser --------------------------------------------------------------------------------------------- *)
+(* for every token list whatsoever -- unbalanced brackets, stray semicolons, comment tokens in key position so that the
+   backward walks wrap around the list end -- parse_dict_go / parse_list_go and their helpers never exhaust the fuel *)
+Theorem C02_parser_terminates : forall ts, parse_tokens ts <> Raise E_Fuel.
+Proof. exact parse_tokens_terminates. Qed.
+Print Assumptions C02_parser_terminates.
+
+(* and no helper is cut short silently (kv_back returns its partial result when its fuel runs out, without E_Fuel):
+   every fuel from 3 * length + 3 on gives the same result as the model's 4 * length + 8 *)
+Theorem C02_parser_fuel_irrelevant : forall ts f,
+  (3 * length ts + 3 <= f)%nat -> parse_dict_go f (levels ts) 0%Z [] = parse_tokens ts.
+Proof. exact parse_tokens_fuel_irrelevant. Qed.
+Print Assumptions C02_parser_fuel_irrelevant.
+
+(* the helper loops on their own, started anywhere: the index walks in one direction and leaves the list after at most
+   two passes (key_index and check_dict_end walk backwards and wrap around to the list end once) *)
+Theorem C02_helpers_terminate : forall (ts : list ztok) f, (2 * length ts + 1 <= f)%nat ->
+  (forall ti off, (ti <= Z.of_nat (length ts))%Z -> (1 <= off)%Z -> key_index f ts ti off <> Raise E_Fuel) /\
+  (forall idx, (idx < 0)%Z -> check_dict_end f ts idx <> Raise E_Fuel) /\
+  (forall ti i cl clv acc, (0 <= ti + i)%Z -> collect_struct f ts ti i cl clv acc <> Raise E_Fuel).
+Proof. exact helpers_terminate. Qed.
+Print Assumptions C02_helpers_terminate.
+
+(* all three tokens are comment tokens: the walk from index 2 - 1 visits 1, 0, -1, -2, -3 and leaves the list *)
+Example C02_helpers_terminate_nonvacuous :
+  let ts := levels (map of_string ["LINECOMMENT000001"; "BLOCKCOMMENT000002"; "LINECOMMENT000003"]%string) in
+  key_index 7 ts 2%Z 1%Z = Raise E_Index /\ key_index 5 ts 2%Z 1%Z = Raise E_Fuel /\
+  check_dict_end 7 ts (-2)%Z = Raise E_Index.
+Proof. vm_compute. repeat split. Qed.
+
+(* computed instances on malformed token lists *)
+Definition toks (l : list string) : list str := map of_string l.
+
+(* two comment tokens, then an opening brace: key_index walks backwards over index -1, -2, -3 (= the list once more from
+   its end), then falls off: IndexError after 2 * length steps -- the largest fuel any list of this length needs *)
+Example C02_parser_terminates_wraparound :
+  parse_tokens (toks ["LINECOMMENT000001"; "BLOCKCOMMENT000002"; "{"]%string) = Raise E_Index.
+Proof. vm_compute. reflexivity. Qed.
+
+(* closing brackets first, stray semicolons, a list closed twice, a dict never closed: IndexError *)
+Example C02_parser_terminates_unbalanced :
+  parse_tokens (toks ["}"; ";"; "a"; "("; "b"; ")"; ";"; "{"; "c"; "{"; "}"]%string) = Raise E_Index.
+Proof. vm_compute. reflexivity. Qed.
+
+(* a comment token first, nested empty list and dict inside a list, doubled semicolons, an unmatched closing bracket
+   at the end: parsed without complaint *)
+Example C02_parser_terminates_nonvacuous :
+  parse_tokens (toks ["LINECOMMENT000001"; "a"; "("; "("; ")"; "{"; "}"; "1"; ")"; ";"; ";"; "b"; "2"; ";"; ")"]%string)
+  = Ok [(KS (of_string "LINECOMMENT000001"), Leaf (SStr (of_string "LINECOMMENT000001")));
+        (KS (of_string "a"), Lst [Lst []; Dict []; Leaf (SInt 1)]);
+        (KS (of_string "b"), Leaf (SInt 2))].
+Proof. vm_compute. reflexivity. Qed.
+
+Example C02_parser_fuel_irrelevant_nonvacuous :
+  let ts := toks ["LINECOMMENT000001"; "a"; "("; "("; ")"; "{"; "}"; "1"; ")"; ";"; ";"; "b"; "2"; ";"; ")"]%string in
+  parse_dict_go 48 (levels ts) 0%Z [] = parse_tokens ts /\ parse_dict_go 1000 (levels ts) 0%Z [] = parse_tokens ts.
+Proof. split; apply C02_parser_fuel_irrelevant; vm_compute; repeat constructor. Qed.
+
+(* ---- _insert_string_literals -------------------------------------------------------------------------------------- *)
+(* side condition (literal_ok): the value a registered literal evaluates to does not contain the literal's OWN placeholder.
+   Placeholders of other literals inside a literal are harmless.  [wf]: the dict has unique keys at every level, as every
+   Python dict has (the model's association lists could violate it). *)
+Theorem C02_insert_literals_terminate : forall lits d,
+  wf (Dict d) = true -> Forall literal_ok lits -> insert_string_literals lits d <> Raise E_Fuel.
+Proof. exact insert_string_literals_terminates. Qed.
+Print Assumptions C02_insert_literals_terminate.
+
+(* in particular: no registered literal contains the word STRINGLITERAL *)
+Corollary C02_insert_literals_terminate_no_word : forall lits d,
+  wf (Dict d) = true -> Forall (fun e => contains w_STRINGLITERAL (snd e) = false) lits ->
+  insert_string_literals lits d <> Raise E_Fuel.
+Proof. exact insert_string_literals_terminates_no_word. Qed.
+Print Assumptions C02_insert_literals_terminate_no_word.
+
+(* the side condition holds (literal 1 mentions the placeholder of literal 2), the theorem applies, and the result is
+   what one expects *)
+Example C02_insert_literals_terminate_nonvacuous :
+  let lits := [(1%N, of_string "x STRINGLITERAL000002"); (2%N, of_string "y")] in
+  let d := [(KS (of_string "a"), Leaf (SStr (of_string "STRINGLITERAL000001")));
+            (KS (of_string "b"), Lst [Leaf (SStr (of_string "STRINGLITERAL000002"))])] in
+  wf (Dict d) = true /\ Forall literal_ok lits /\ insert_string_literals lits d <> Raise E_Fuel /\
+  insert_string_literals lits d = Ok [(KS (of_string "a"), Leaf (SStr (of_string "y")));
+                                      (KS (of_string "b"), Lst [Leaf (SStr (of_string "y"))])].
+Proof.
+  intros lits d.
+  assert (H1 : wf (Dict d) = true) by (vm_compute; reflexivity).
+  assert (H2 : Forall literal_ok lits) by (apply literals_okb_ok; vm_compute; reflexivity).
+  split; [exact H1|]. split; [exact H2|]. split; [exact (C02_insert_literals_terminate lits d H1 H2)|].
+  vm_compute. reflexivity.
+Qed.
+
+(* the side condition is needed: a literal that contains its own placeholder is found again after every insertion *)
+Example C02_insert_literals_own_placeholder_loops :
+  insert_string_literals [(0%N, of_string "x STRINGLITERAL000000")]
+                         [(KS (of_string "a"), Leaf (SStr (of_string "STRINGLITERAL000000")))] = Raise E_Fuel.
+Proof. vm_compute. reflexivity. Qed.
+
+(* ---- parse_string -------------------------------------------------------------------------------------------------- *)
+(* the token parser terminates on whatever the lexer produces, the parsed dict is well-formed (also after _clean), so the
+   only way to exhaust the fuel is a registered literal that contains its own placeholder *)
+Theorem C02_parse_string_terminates : forall com dir count text,
+  Forall literal_ok (lxd_lit (lex com dir count text)) ->
+  parse_string com dir count text <> Raise E_Fuel.
+Proof. exact parse_string_terminates. Qed.
+Print Assumptions C02_parse_string_terminates.
+
+Corollary C02_parse_string_terminates_no_word : forall com dir count text,
+  Forall (fun e => contains w_STRINGLITERAL (snd e) = false) (lxd_lit (lex com dir count text)) ->
+  parse_string com dir count text <> Raise E_Fuel.
+Proof.
+  intros com dir count text H. apply C02_parse_string_terminates.
+  eapply Forall_impl; [|exact H]. intros e He. apply literal_ok_no_word. exact He.
+Qed.
+Print Assumptions C02_parse_string_terminates_no_word.
+
+(* decidable form of the hypothesis, for concrete texts *)
+Corollary C02_parse_string_terminates_checked : forall com dir count text,
+  forallb literal_okb (lxd_lit (lex com dir count text)) = true ->
+  parse_string com dir count text <> Raise E_Fuel.
+Proof. intros com dir count text H. apply C02_parse_string_terminates. apply literals_okb_ok. exact H. Qed.
+
+Example C02_parse_string_terminates_nonvacuous :
+  let text := of_string "a 'x STRINGLITERAL000002'; b 'y'; c ( 1 'two words' ) ; } ;" in
+  lxd_lit (lex true [] 0%Z text) = [(1%N, of_string "x STRINGLITERAL000002"); (2%N, of_string "y"); (3%N, of_string "two words")] /\
+  parse_string true [] 0%Z text <> Raise E_Fuel.
+Proof.
+  intros text. split; [vm_compute; reflexivity|].
+  apply C02_parse_string_terminates_checked. vm_compute. reflexivity.
+Qed.
+
+(* the hangs: with the counter at 0 the first literal is registered under id 1 *)
+Example C02_parse_string_own_placeholder_loops :
+  parse_string true [] 0%Z (of_string "a 'x STRINGLITERAL000001';") = Raise E_Fuel.
+Proof. vm_compute. reflexivity. Qed.
+
+(* the source text need not contain the word STRINGLITERAL: without comment placeholders (comments = False) an empty block
+   comment inside the literal is removed and joins the two halves *)
+Example C02_parse_string_joined_placeholder_loops :
+  contains w_STRINGLITERAL (of_string "a 'x STRINGLIT/**/ERAL000001';") = false /\
+  parse_string false [] 0%Z (of_string "a 'x STRINGLIT/**/ERAL000001';") = Raise E_Fuel.
+Proof. split; vm_compute; reflexivity. Qed.
+
+(* ---- the fuelled scanners of the lexer ----------------------------------------------------------------------------- *)
+(* find_block_comments, scan_literals (extract_string_literals), find_expressions, extract_references: the O branch is
+   never reached from the fuel the model supplies; any larger fuel gives the same result *)
+Theorem C02_lexer_fuel_adequate : forall f,
+  (forall s, (S (length s) <= f)%nat -> find_block_comments f s = find_block_comments (S (length s)) s) /\
+  (forall count s, (S (length s) <= f)%nat -> scan_literals f false count [] [] s = extract_string_literals count s) /\
+  (forall s, (S (length s) <= f)%nat -> find_expressions f s = find_expressions (S (length s)) s) /\
+  (forall count t tab, (S (length t) <= f)%nat ->
+     extract_references f count t tab = extract_references (S (length t)) count t tab).
+Proof. exact lexer_fuel_adequate. Qed.
+Print Assumptions C02_lexer_fuel_adequate.
+
+Example C02_lexer_fuel_adequate_nonvacuous :
+  let s := of_string "a /* b */ 'c' ""$d + $$e[0]"" /* unclosed ""$f 'g" in
+  find_block_comments 1000 s = [of_string "/* b */"] /\
+  find_block_comments 1000 s = find_block_comments (S (length s)) s /\
+  scan_literals 1000 false 0%Z [] [] s = extract_string_literals 0%Z s /\
+  find_expressions 1000 s = find_expressions (S (length s)) s /\
+  extract_references 1000 5%Z s [] = extract_references (S (length s)) 5%Z s [] /\
+  fst (fst (extract_references 1000 5%Z s [])) =
+    of_string "a /* b */ 'c' ""EXPRESSION000006 + EXPRESSION000008"" /* unclosed ""EXPRESSION000009 'g".
+Proof.
+  intros s. split; [vm_compute; reflexivity|].
+  destruct (C02_lexer_fuel_adequate 1000) as (H1 & H2 & H3 & H4).
+  assert (Hl : (S (length s) <= 1000)%nat) by (vm_compute; repeat constructor).
+  split; [exact (H1 s Hl)|]. split; [exact (H2 0%Z s Hl)|]. split; [exact (H3 s Hl)|].
+  split; [exact (H4 5%Z s [] Hl)|]. vm_compute. reflexivity.
+Qed.
+
+(* _recursive_clean, which parse_string runs through sd_clean (it returns its input unchanged when the fuel runs out): the
+   model's fuel S (depth) is adequate *)
+Theorem C02_clean_fuel_adequate : forall f data s,
+  (S (depth (Dict data)) <= f)%nat -> clean_tree f data s = clean_tree (S (depth (Dict data))) data s.
+Proof. exact clean_fuel_adequate. Qed.
+Print Assumptions C02_clean_fuel_adequate.
+
+(* the nested dict holds the same block comment twice: the duplicate is removed -- but only if the recursion gets there
+   (fuel 1 cleans the top level only) *)
+Example C02_clean_fuel_adequate_nonvacuous :
+  let L := fun s : string => (KS (of_string s), Leaf (SStr (of_string s))) in
+  let data := [L "BLOCKCOMMENT000001"; (KS (of_string "a"), Dict [L "BLOCKCOMMENT000002"; L "BLOCKCOMMENT000003"])]%string in
+  let s := mkSD data [] [(1%N, of_string "/* c */"); (2%N, of_string "/* d */"); (3%N, of_string "/* d */")] [] [] in
+  clean_tree 100 data s = clean_tree (S (depth (Dict data))) data s /\
+  fst (clean_tree 100 data s) = [L "BLOCKCOMMENT000001"; (KS (of_string "a"), Dict [L "BLOCKCOMMENT000002"])]%string /\
+  fst (clean_tree 1 data s) = data.
+Proof.
+  intros L data s. split; [apply C02_clean_fuel_adequate; vm_compute; repeat constructor|].
+  split; vm_compute; reflexivity.
+Qed.
+
